@@ -40,10 +40,21 @@ Proof. exact inv_delete. Qed.
     or load_shell_env with ANY environment (its level is computed by
     Environment.load against the merged view; C16's theorems give that it is a
     well-formed dict conforming to the schema).
-    MISSING w.r.t. the full statement: dict-valued writes (false: F-C06a), held
-    proxies (false: F-C06e, F-C06b; see the held-proxy theorem below for what
-    does hold), file levels / clone inside the history (swept below and
-    exercised by the correspondence).  Returned values: this theorem is about
+    [update(mapping, **kw)] (mapping first, then the keyword arguments) is
+    inside the guard as well.
+    MISSING w.r.t. the full statement -- every operation of the model that
+    [op_ok] rejects: dict-valued writes, i.e. a [Node] value in set /
+    setdefault / update (false: F-C06a); operations through held proxies (false:
+    F-C06e, F-C06b; see the held-proxy theorem below for what does hold);
+    [UpdateProxy] (update(<section of the same config>), false: F-C06g);
+    [RawSet] (edit through the raw dict handed out by get(), false: F-C06h);
+    [LeafAppend] (in-place edit of a list leaf: not tracked by the config at
+    all); the file loads [LoadSystem/User/Project/Runtime], the re-pointings
+    [SetProjectLocation/SetRuntimePath], every [merge=False] load
+    ([Load*D]) and [Merge], and [Clone] (with or without [into]).  These are
+    judged by the executable specification on every generated history (the
+    correspondence + spec check) and the reloads/clone by the bounded sweep
+    below, but no universally quantified theorem covers them.  Returned values: this theorem is about
     the view; [C06_model_trace_meets_spec] below adds outcomes and the whole
     executable [spec_ok].
     Under the guard the view after the history shows, at every path, exactly
@@ -262,6 +273,17 @@ Theorem C06_refuted_proxy_across_deletion :
                 ops = [Hold 0 Item ["a"]; Plain (SetV Item [] "k" (Leaf (VInt 1)));
                        Plain (Del Item ["a"] "b"); Via 0 (SetV Item ["b"] "x" (Leaf (VInt 2)))].
 Proof. eexists; eexists; split; [exact (proj1 refuted_proxy_across_deletion) | reflexivity]. Qed.
+
+(** F-C06g and F-C06h on the faithful model (same witnesses as the register). *)
+Theorem C06_refuted_update_from_proxy :
+  exists i ops, model_meets_spec [] i ops = false /\
+                ops = [Plain (UpdateProxy Item ["a"] ["b"])].
+Proof. eexists; eexists; split; [exact refuted_update_from_proxy | reflexivity]. Qed.
+
+Theorem C06_refuted_raw_dict_edit :
+  exists i ops, model_meets_spec [] i ops = false /\
+                ops = [Plain (RawSet Item [] "a" "z" (Leaf (VInt 5))); Plain (SetV Item [] "k" (Leaf (VInt 1)))].
+Proof. eexists; eexists; split; [exact refuted_raw_dict_edit | reflexivity]. Qed.
 
 (** A test, not the property: the model's trace of every history of at most 3
     steps from a 22-letter alphabet (leaf writes at two depths, deletions, pop
